@@ -75,7 +75,12 @@ func (t *TwoPhaseAction) GetRollbackMethodName() string {
 }
 
 func (t *TwoPhaseAction) Prepare(ctx context.Context, params interface{}) (bool, error) {
-	values := []reflect.Value{reflect.ValueOf(ctx), reflect.ValueOf(params)}
+	paramsValue := reflect.ValueOf(params)
+	if !paramsValue.IsValid() {
+		// an untyped nil has no reflect value to call with: pass the zero value of the parameter's type
+		paramsValue = reflect.Zero(t.prepareMethod.Type().In(1))
+	}
+	values := []reflect.Value{reflect.ValueOf(ctx), paramsValue}
 	res := t.prepareMethod.Call(values)
 	var (
 		r0   = res[0].Interface()
